@@ -154,6 +154,7 @@ def _algos():
     A['triangles'] = ('inv', lambda a, x: count_triangles(a), 0, 'undirected')
     A['cliques3'] = ('inv', lambda a, x: count_cliques(a, 3), 0, 'undirected')
     A['cliques4'] = ('inv', lambda a, x: count_cliques(a, 4), 0, 'undirected')
+    A['cliques5'] = ('inv', lambda a, x: count_cliques(a, 5), 0, 'undirected')
     A['clustering_coefficient'] = ('inv', lambda a, x: get_clustering_coefficient(a), 1e-12, 'undirected')
     A['modularity'] = ('inv', lambda a, x: get_modularity(a, x['partition']), 1e-12, 'any')
     A['modularity(res=2,uniform)'] = ('inv', lambda a, x: get_modularity(a, x['partition'], weights='uniform', resolution=2), 1e-12, 'any')
@@ -368,6 +369,11 @@ def _rel_mats(ctx, quick):
         mats.append(graphs.csr_from_edges(3, es))
     for name, n, es, w in graphs.suite(rng, 14 if quick else 150, 4, 10, weights=[1, 1, 2, 3]):
         mats.append(graphs.csr_from_edges(n, es, w))
+    # dense irregular graphs: deep clique recursion levels, many triangles, rich core structure
+    for _ in range(6 if quick else 60):
+        n = rng.randint(8, 14)
+        es = graphs.random_edges(rng, n, rng.choice([0.5, 0.6, 0.7]), directed=False)
+        mats.append(graphs.csr_from_edges(n, es))
     return mats
 
 
